@@ -26,6 +26,7 @@ func init() {
 			{ID: "C04.R3", Min: 2, Doc: "rewriters in table order: RW.Do is called in a range loop over the `rewriters` slice of the loaded snapshot, on the loop element, loop exits only by exhaustion", Run: c04r3},
 			{ID: "C04.R4", Min: 2, Doc: "read-only after hand-off: no store into the fields slice is reachable after an AddMaybe call; no element store / copy destination / append on values derived from parameters of declared kind LINE, NAME or FIELDS in table, route, destination, aggregator", Run: c04r4},
 			{ID: "C04.R6", Min: 1, Doc: "RW.Do decision table by path enumeration: the rule is skipped (argument returned unchanged) exactly when the not-regex matches, or — only when there is no not-regex — the not-substring is contained; otherwise regex rules return re.ReplaceAll(name, new) and literal rules bytes.Replace(name, old, new, Max)", Run: c04r6},
+			{ID: "C04.R7", Min: 9, Doc: "rewriter.New builds the rule from its arguments: Old/New/Not/Max and the byte forms old/new/not are the parameters themselves; re (notRe) is nil or the expression compiled from old[1:len-1] (not[1:len-1]), and is never reset once compiled", Run: c04r7},
 			{ID: "C04.R5", Min: 1, Doc: "RW.Do: values derived from the argument are only passed to Regexp.Match, bytes.Contains, Regexp.ReplaceAll, bytes.Replace/ReplaceAll (all non-mutating) or returned; no stores through it", Run: c04r5},
 		},
 	})
@@ -562,4 +563,97 @@ func b2i(b bool) int {
 		return 1
 	}
 	return 0
+}
+
+func c04r7(c *Check) {
+	fn := c.P.Func("rewriter", "", "New")
+	lit := literalFields(fn, "rewriter.RW")
+	if len(lit) == 0 {
+		anchorFail("rewriter.New: RW literal not found")
+	}
+	par := map[string]*ssa.Parameter{}
+	for _, p := range fn.Params {
+		par[p.Name()] = p
+	}
+	for _, n := range []string{"old", "new", "not", "max"} {
+		if par[n] == nil {
+			anchorFail("rewriter.New: parameter %s not found", n)
+		}
+	}
+	direct := map[string]string{"Old": "old", "New": "new", "Not": "not", "Max": "max"}
+	for f, p := range direct {
+		c.Judge(lit[f] == ssa.Value(par[p]), "rewriter.New RW."+f+" = "+p, c.AtFn(fn), "the parameter itself", "RW."+f+" is not the "+p+" argument")
+	}
+	for _, f := range []string{"old", "new", "not"} {
+		cv, ok := lit[f].(*ssa.Convert)
+		c.Judge(ok && cv.X == ssa.Value(par[f]), "rewriter.New RW."+f+" = []byte("+f+")", c.AtFn(fn), "byte form of the parameter", "the bytes the rule searches for / inserts / excludes on (RW."+f+") are not the "+f+" argument: the configured rule and the applied rule differ")
+	}
+	for f, p := range map[string]string{"re": "old", "notRe": "not"} {
+		v := lit[f]
+		// leaves of the value through phis
+		var compile *ssa.Call
+		bad := ""
+		seen := map[ssa.Value]bool{}
+		type leaf struct {
+			v    ssa.Value
+			pred *ssa.BasicBlock
+		}
+		var leaves []leaf
+		var walk func(v ssa.Value, pred *ssa.BasicBlock)
+		walk = func(v ssa.Value, pred *ssa.BasicBlock) {
+			if phi, ok := v.(*ssa.Phi); ok {
+				if seen[v] {
+					return
+				}
+				seen[v] = true
+				for i, e := range phi.Edges {
+					walk(e, phi.Block().Preds[i])
+				}
+				return
+			}
+			leaves = append(leaves, leaf{v, pred})
+		}
+		walk(v, nil)
+		for _, l := range leaves {
+			if k, ok := l.v.(*ssa.Const); ok && k.IsNil() {
+				continue
+			}
+			ex, ok := l.v.(*ssa.Extract)
+			if !ok || ex.Index != 0 {
+				bad = "RW." + f + " can be something other than nil or the compiled expression"
+				continue
+			}
+			call, ok := ex.Tuple.(*ssa.Call)
+			if !ok || calleeName(call.Common()) != "regexp.Compile" {
+				bad = "RW." + f + " does not come from regexp.Compile"
+				continue
+			}
+			sl, ok := call.Call.Args[0].(*ssa.Slice)
+			okSl := ok && sl.X == ssa.Value(par[p])
+			if okSl {
+				lo, ok1 := constInt(sl.Low)
+				okSl = ok1 && lo == 1
+				if bo, ok := sl.High.(*ssa.BinOp); !ok || bo.Op != token.SUB || !isLenOf(bo.X, par[p]) {
+					okSl = false
+				} else if k, ok := constInt(bo.Y); !ok || k != 1 {
+					okSl = false
+				}
+			}
+			if !okSl {
+				bad = "the expression compiled for RW." + f + " is not " + p + " without its enclosing slashes"
+			}
+			compile = call
+		}
+		if compile == nil && bad == "" {
+			bad = "RW." + f + " is never the compiled expression"
+		}
+		if compile != nil && bad == "" {
+			for _, l := range leaves {
+				if k, ok := l.v.(*ssa.Const); ok && k.IsNil() && l.pred != nil && compile.Block().Dominates(l.pred) {
+					bad = "RW." + f + " is reset to nil after the expression was compiled: a /regex/ rule is silently applied as a literal rule (no anchors, no ${n} expansion)"
+				}
+			}
+		}
+		c.Judge(bad == "", "rewriter.New RW."+f+" = nil | Compile("+p+"[1:len-1])", c.AtFn(fn), "nil for literal rules, the compiled inner expression for /…/ rules", bad)
+	}
 }
